@@ -120,6 +120,28 @@ static int mlblock()
   return 0;
 }
 
+// the range accessors the library's loops iterate over, against the geometry: partner rings of ring ra are max(ra-D,0)..min(ra+D,R-1),
+// partner detectors of detector a are a+N/2-h..a+N/2+h
+static int ranges(int R, int N, int D, int fan)
+{
+  FanProjData f(R, N, D, fan);
+  const int h = fan / 2;
+  if (f.get_min_ra() != 0 || f.get_max_ra() != R - 1 || f.get_min_a() != 0 || f.get_max_a() != N - 1)
+    { std::printf("CONFIRMED FanProjData(%d,%d,%d,%d): ring / detector ranges [%d,%d] / [%d,%d]\n", R, N, D, fan, f.get_min_ra(), f.get_max_ra(), f.get_min_a(), f.get_max_a()); return 1; }
+  for (int ra = 0; ra < R; ++ra)
+    if (f.get_min_rb(ra) != std::max(ra - D, 0) || f.get_max_rb(ra) != std::min(ra + D, R - 1))
+      {
+        std::printf("CONFIRMED FanProjData(%d,%d,%d,%d): partner rings of ring %d reported as [%d,%d], geometry says [%d,%d]\n", R, N, D, fan, ra, f.get_min_rb(ra), f.get_max_rb(ra),
+                    std::max(ra - D, 0), std::min(ra + D, R - 1));
+        return 1;
+      }
+  for (int a = 0; a < N; ++a)
+    if (f.get_min_b(a) != a + N / 2 - h || f.get_max_b(a) != a + N / 2 + h)
+      { std::printf("CONFIRMED FanProjData(%d,%d,%d,%d): fan of detector %d reported as [%d,%d]\n", R, N, D, fan, a, f.get_min_b(a), f.get_max_b(a)); return 1; }
+  std::printf("REPLAY ok\n");
+  return 0;
+}
+
 // scanner with virtual crystals (ECAT 1080: one virtual crystal per block, axially and transaxially): proj data -> fan data
 // -> proj data restores every bin whose four crystals are physical and fills every other bin of the fan with gap_value
 static int gaps()
@@ -166,6 +188,7 @@ int main(int argc, char** argv)
       if (argc >= 6 && !strcmp(argv[1], "indata")) return indata(atoi(argv[2]), atoi(argv[3]), atoi(argv[4]), atoi(argv[5]));
       if (argc >= 2 && !strcmp(argv[1], "roundtrip")) return roundtrip();
       if (argc >= 2 && !strcmp(argv[1], "gaps")) return gaps();
+      if (argc >= 6 && !strcmp(argv[1], "ranges")) return ranges(atoi(argv[2]), atoi(argv[3]), atoi(argv[4]), atoi(argv[5]));
       if (argc >= 2 && !strcmp(argv[1], "mlblock")) return mlblock();
     }
   catch (...)
